@@ -611,6 +611,17 @@ func (f *formatter) nextNeedsFormfeed(n ast.Expr) bool {
 	return false
 }
 
+// startsWithMinus reports whether the printed form of x starts with '-'.
+func startsWithMinus(x ast.Expr) bool {
+	switch x := x.(type) {
+	case *ast.UnaryExpr:
+		return x.Op == token.SUB
+	case *ast.BasicLit:
+		return strings.HasPrefix(x.Value, "-")
+	}
+	return false
+}
+
 func (f *formatter) importSpec(x *ast.ImportSpec) {
 	if x.Name != nil {
 		f.label(x.Name, token.ILLEGAL)
@@ -724,6 +735,10 @@ func (f *formatter) exprRaw(expr ast.Expr, prec1, depth int) {
 		} else {
 			// no parenthesis needed
 			f.print(x.OpPos, x.Op, nooverride)
+			if x.Op == token.LSS && startsWithMinus(x.X) {
+				// "<-" would be scanned as the arrow token.
+				f.print(blank)
+			}
 			f.expr1(x.X, prec, depth)
 		}
 
